@@ -1,0 +1,53 @@
+/// Owning iterator over `len` consecutive, initialized elements starting at `ptr`:
+/// elements are moved out one by one; those not yielded are dropped in place when the iterator is dropped.
+pub(crate) struct Taken<T> {
+    ptr: *mut T,
+    len: usize,
+    idx: usize,
+}
+
+impl<T> Taken<T> {
+    /// # Safety
+    ///
+    /// `ptr..ptr+len` must be valid, initialized and not accessed by anyone else from now on.
+    pub(crate) unsafe fn new(ptr: *mut T, len: usize) -> Self {
+        Self { ptr, len, idx: 0 }
+    }
+}
+
+impl<T> Iterator for Taken<T> {
+    type Item = T;
+
+    #[inline]
+    fn next(&mut self) -> Option<T> {
+        match self.idx < self.len {
+            true => {
+                let value = unsafe { self.ptr.add(self.idx).read() };
+                self.idx += 1;
+                Some(value)
+            }
+            false => None,
+        }
+    }
+
+    #[inline]
+    fn size_hint(&self) -> (usize, Option<usize>) {
+        let len = self.len - self.idx;
+        (len, Some(len))
+    }
+}
+
+impl<T> ExactSizeIterator for Taken<T> {}
+
+impl<T> Drop for Taken<T> {
+    fn drop(&mut self) {
+        let remaining =
+            std::ptr::slice_from_raw_parts_mut(unsafe { self.ptr.add(self.idx) }, self.len - self.idx);
+        self.idx = self.len;
+        unsafe { std::ptr::drop_in_place(remaining) };
+    }
+}
+
+unsafe impl<T: Send> Send for Taken<T> {}
+
+unsafe impl<T: Sync> Sync for Taken<T> {}
